@@ -2,6 +2,8 @@
 """Print the prompt for a mutation sub-agent: only the property text and its scratch worktree (nothing from /verif)."""
 import json, sys
 pid = sys.argv[1]
+ma, mb = (sys.argv[2], sys.argv[3]) if len(sys.argv) > 3 else ("m1", "m2")
+avoid = sys.argv[4] if len(sys.argv) > 4 else ""
 wt = f"/tmp/wt/{pid}"
 for l in open('/verif/properties.jsonl'):
     d = json.loads(l)
@@ -23,7 +25,9 @@ THE PROPERTY (a semantic property of schemathesis users rely on):
 
 YOUR TASK: produce TWO independent, realistic source changes (each a separate small patch to files under {wt}/src/schemathesis) that each BREAK this property, while the code still imports and the project's existing test suite still passes. Think of plausible developer mistakes: an off-by-one, a dropped condition, a wrong variable, a cache keyed too coarsely, a refactor that loses a corner case, two cooperating sites that each look fine alone. IMPORTANT: prefer changes that need something SPECIFIC to manifest - an unusual input shape, a particular combination of schema keywords or configuration, a multi-step sequence of operations, a particular interleaving or fault at a particular point - NOT a change that any ordinary use would expose immediately (e.g. do not simply disable the feature). The two changes should have different mechanisms / touch different code.
 
-For EACH change deliver, under /tmp/wt/{pid}-out/m1/ and /tmp/wt/{pid}-out/m2/:
+{("ALREADY USED by earlier participants - choose different mechanisms and different code: " + avoid) if avoid else ""}
+
+For EACH change deliver, under /tmp/wt/{pid}-out/{ma}/ and /tmp/wt/{pid}-out/{mb}/:
   - patch.diff      (`git -C {wt} diff` of just that change, applies to a clean worktree with `git apply`)
   - demo.py         a small self-contained program (run as `PYTHONPATH=<tree>/src /venv/bin/python demo.py`) that exits 0 and prints PASS on the unmodified tree and exits 1 and prints FAIL with the change applied, demonstrating the property violation through schemathesis' public behaviour (not by inspecting the source). It must be deterministic (fix seeds) and finish within ~60 s.
   - notes.md        3-10 lines: what the change is, why it breaks the property, and what specific input/sequence/configuration is needed for it to manifest.
